@@ -117,7 +117,13 @@ func runCase(t target, st *stream, rd *scriptReader) (v *verdict) {
 			}
 		}()
 		if t == tFw {
-			err = fwface.VerifC11ReadTlvStream(rd, ck.frame, nil)
+			// TCP and Unix stream transports pass no predicate; the UDP transports pass
+			// udpIgnoreError. It only matters when the script answers with that error.
+			var pred func(error) bool
+			if rd.usesErr() {
+				pred = udpIgnoreError
+			}
+			err = fwface.VerifC11ReadTlvStream(rd, ck.frame, pred)
 		} else {
 			f := sface.NewStreamFace("verif", "verif", true)
 			f.SetCallback(func(r enc.ParseReader) error {
@@ -235,7 +241,9 @@ type passStats struct {
 }
 
 // allPartitions runs every partition of every stream into Read results. streams must be <= 24 bytes.
-func allPartitions(pass string, t target, streams []*stream, deadline time.Time) (runs int64, complete bool) {
+// errMaxLen > 0 (readTlvStream only): for streams of at most that many bytes, additionally every choice
+// of <= 2 reads of every partition answered together with the ignorable error.
+func allPartitions(pass string, t target, streams []*stream, errMaxLen int, deadline time.Time) (runs int64, complete bool) {
 	var total int64
 	_, complete = enum.Range(int64(len(streams)), deadline, func(i int64) {
 		st := streams[i]
@@ -243,28 +251,51 @@ func allPartitions(pass string, t target, streams []*stream, deadline time.Time)
 		rd.reset(st.data)
 		rd.useMask = true
 		n := uint32(1) << uint(len(st.data)-1)
+		cnt := int64(0)
 		for m := uint32(0); m < n; m++ {
-			rd.mask = m
+			rd.mask, rd.errMask = m, 0
 			if v := runCase(t, st, &rd); v != nil {
 				record(pass, t, st, &rd, v)
 			}
+			cnt++
+			if len(st.data) > errMaxLen {
+				continue
+			}
+			// every choice of <= 2 reads (never the last one) answered together with the ignorable error
+			for b1 := uint32(1); b1 != 0 && b1 <= m; b1 <<= 1 {
+				if m&b1 == 0 {
+					continue
+				}
+				rd.errMask = b1
+				if v := runCase(t, st, &rd); v != nil {
+					record(pass, t, st, &rd, v)
+				}
+				cnt++
+				for b2 := b1 << 1; b2 != 0 && b2 <= m; b2 <<= 1 {
+					if m&b2 == 0 {
+						continue
+					}
+					rd.errMask = b1 | b2
+					if v := runCase(t, st, &rd); v != nil {
+						record(pass, t, st, &rd, v)
+					}
+					cnt++
+				}
+			}
 		}
-		atomic.AddInt64(&total, int64(n))
+		atomic.AddInt64(&total, cnt)
 	})
 	return total, complete
 }
 
-// cutSets runs every placement of <= maxCuts short reads at the given positions (each short read
-// plain or followed by a 0-byte read when withZero), buffer-filling reads elsewhere.
-// zeroInPairs: the 0-byte-read variant is also combined in pairs (else only for single short reads).
+// cutSets runs every placement of <= maxCuts short reads at the given positions, buffer-filling
+// reads elsewhere. single: the kinds (plain, +0-byte read, returned with the ignorable error, +read
+// returning only the ignorable error) tried for one short read; pairs: the kind combinations tried
+// for two. A third short read is only added to plain pairs.
 // near > 0 restricts the second/third cut to the next `near` positions after the previous one
 // unless the first cut is among the first `head` positions.
-func cutSets(pass string, t target, st *stream, pos []int, maxCuts int, withZero, zeroInPairs bool, near, head int, deadline time.Time) (runs int64, complete bool) {
+func cutSets(pass string, t target, st *stream, pos []int, maxCuts int, single []uint8, pairs [][2]uint8, near, head int, deadline time.Time) (runs int64, complete bool) {
 	var total int64
-	kinds := 1
-	if withZero {
-		kinds = 2
-	}
 	// no cut
 	{
 		var rd scriptReader
@@ -287,44 +318,62 @@ func cutSets(pass string, t target, st *stream, pos []int, maxCuts int, withZero
 			}
 			n++
 		}
-		for k1 := 0; k1 < kinds; k1++ {
+		for _, k1 := range single {
 			rd.ncuts = 1
-			rd.cuts[0], rd.zero[0] = pos[i], k1 == 1
+			rd.cuts[0], rd.kind[0] = pos[i], k1
 			run()
-			if maxCuts < 2 || (k1 == 1 && !zeroInPairs) {
-				continue
-			}
-			hi := len(pos)
-			if near > 0 && int(i) >= head && int(i)+1+near < hi {
-				hi = int(i) + 1 + near
-			}
-			for j := int(i) + 1; j < hi; j++ {
-				for k2 := 0; k2 < kinds; k2++ {
-					if k2 == 1 && !zeroInPairs {
-						continue
-					}
-					rd.ncuts = 2
-					rd.cuts[1], rd.zero[1] = pos[j], k2 == 1
-					run()
-					if maxCuts < 3 || k1 == 1 || k2 == 1 {
-						continue
-					}
-					hi3 := len(pos)
-					if near > 0 && j+1+near < hi3 {
-						hi3 = j + 1 + near
-					}
-					for l := j + 1; l < hi3; l++ {
-						rd.ncuts = 3
-						rd.cuts[2], rd.zero[2] = pos[l], false
-						run()
-					}
-					rd.ncuts = 2
+		}
+		if maxCuts < 2 {
+			atomic.AddInt64(&total, n)
+			return
+		}
+		hi := len(pos)
+		if near > 0 && int(i) >= head && int(i)+1+near < hi {
+			hi = int(i) + 1 + near
+		}
+		for j := int(i) + 1; j < hi; j++ {
+			for _, pk := range pairs {
+				rd.ncuts = 2
+				rd.cuts[0], rd.kind[0] = pos[i], pk[0]
+				rd.cuts[1], rd.kind[1] = pos[j], pk[1]
+				run()
+				if maxCuts < 3 || pk[0] != kPlain || pk[1] != kPlain {
+					continue
 				}
+				hi3 := len(pos)
+				if near > 0 && j+1+near < hi3 {
+					hi3 = j + 1 + near
+				}
+				for l := j + 1; l < hi3; l++ {
+					rd.ncuts = 3
+					rd.cuts[2], rd.kind[2] = pos[l], kPlain
+					run()
+				}
+				rd.ncuts = 2
 			}
 		}
 		atomic.AddInt64(&total, n)
 	})
 	return total, complete
+}
+
+// kind sets
+var (
+	kindsPlain   = []uint8{kPlain}
+	kindsZero    = []uint8{kPlain, kZero}
+	kindsAll     = []uint8{kPlain, kZero, kErrWithData, kErrAlone}
+	pairsPlain   = [][2]uint8{{kPlain, kPlain}}
+	pairsWithErr = [][2]uint8{{kPlain, kPlain}, {kErrWithData, kErrWithData}, {kErrAlone, kErrWithData}}
+)
+
+func allPairs(k []uint8) [][2]uint8 {
+	var out [][2]uint8
+	for _, a := range k {
+		for _, b := range k {
+			out = append(out, [2]uint8{a, b})
+		}
+	}
+	return out
 }
 
 func uniform(pass string, t target, st *stream, chunks []int) int64 {
@@ -385,6 +434,9 @@ func main() {
 			os.Exit(replayFile(os.Args[i+1], max))
 		}
 	}
+	if why := checkPredicateSource(); why != "" {
+		report.Fatal("ignoreError predicate: %s", why)
+	}
 	if os.Getenv("VERIF_C11_CHILD") == "real" {
 		if max != realMax {
 			report.Fatal("child build: MaxNDNPacketSize is %d, expected %d", max, realMax)
@@ -402,23 +454,57 @@ func main() {
 	if err != nil {
 		report.Fatal("real-constant pass: %v", err)
 	}
+	// the -race companion of the interleaving pass is built in the background (same overlay as the child)
+	type raceBuilt struct {
+		bin string
+		err error
+	}
+	raceCh := make(chan raceBuilt, 1)
+	go func() {
+		b, e := buildRaceBin()
+		raceCh <- raceBuilt{b, e}
+	}()
+	// interleaving pass first: the scheduler is process-global, nothing else may run meanwhile
+	sendCov, sendFound, err := sendPass(r.Thorough())
+	if err != nil {
+		report.Fatal("interleaving pass: %v", err)
+	}
+	for _, f := range sendFound {
+		clause := f.clause
+		if clause == "crash" || clause == "deadlock" {
+			clause = "C11.send"
+		}
+		vios[clause+"|"+f.key] = &vio{Clause: clause, Key: f.key, Count: 1,
+			Detail: fmt.Sprintf("%s [scenario %s, schedule trace %v]", f.detail, f.scenario, f.trace),
+			Replay: map[string]any{"pass": "send", "scenario": f.scenario, "schedule": f.schedule}}
+	}
 	scaled := scaledPass(r.Thorough())
 	real, err := runChild(bin)
 	if err != nil {
 		report.Fatal("real-constant pass: %v", err)
+	}
+	rb := <-raceCh
+	if rb.err != nil {
+		report.Fatal("race pass: %v", rb.err)
+	}
+	raceCov, err := runRaceBin(rb.bin, r.Thorough())
+	if err != nil {
+		report.Fatal("race pass: %v", err)
 	}
 	for _, v := range vios {
 		r.Add(report.Violation{Clause: v.Clause, Key: v.Key, Detail: fmt.Sprintf("%s [%d cases]", v.Detail, v.Count), Replay: v.Replay})
 	}
 	samples := append(append([]string{}, scaled.Samples...), real.Samples...)
 	r.Finish(report.Coverage{
-		"evaluations":               scaled.Runs + real.Runs,
+		"evaluations":               scaled.Runs + real.Runs + int64(sendCov["schedules_executed"].(int)),
 		"distinct_nontrivial":       scaled.Classes + real.Classes,
 		"rule":                      "distinct (target, stream, set of short-read positions) classes with at least one read ending inside a block, plus distinct (target, short stream) pairs whose every partition was run",
 		"samples":                   samples,
-		"exhaustive":                scaled.Complete && real.Complete,
+		"exhaustive":                scaled.Complete && real.Complete && sendCov["complete_within_bound"] == true,
 		"scaled_pass":               scaled,
 		"real_constant_pass":        real,
+		"send_interleaving_pass":    sendCov,
+		"send_race_pass":            raceCov,
 		"out_of_scope_observations": append(append([]string{}, scaled.Observed...), real.Observed...),
 	}, []string{
 		"Seam: readTlvStream called directly (hook, build tag verif) with a scripted io.Reader; StreamFace.Run called synchronously on a scripted net.Conn installed through a hook. No sockets, no goroutines.",
@@ -426,6 +512,8 @@ func main() {
 		"Scaled model: defn.MaxNDNPacketSize := 24 through the check-time source overlay (the buffer is 32x, both thresholds 1x the constant; no other use in readTlvStream). The real-constant build re-checks the boundary classes with 8800.",
 		"Deviation bounding: long streams are read with buffer-filling reads except for <= 2 (thorough: 3 in the scaled model) short reads placed at every boundary class of every block; short streams (<= 16/18 bytes) get every partition.",
 		"C11.retain applies to StreamFace.Run only: the reader/wire handed to onPkt is kept without copying and compared again after the whole stream was delivered, because the application engine retains the raw wire of packets (fresh buffer per block is part of that face's contract). readTlvStream reuses its buffer by design and documents the callback slice as valid during the call only, so there the comparison stays inside the callback.",
+		"Environment answers of the scripted reader: a short read may be plain, followed by a (0, nil) read, returned TOGETHER with an error, or followed by a read that returns only that error. The error is a connected UDP socket's 'read udp: recvfrom: connection refused' and readTlvStream is then given the predicate that unicast-udp-transport.go and multicast-udp-transport.go pass (strings.Contains(err.Error(), \"connection refused\"); the check verifies that both files still contain it); without such an answer readTlvStream gets a nil predicate, as the TCP and Unix transports call it. The error-with-data answer is never the last read of a stream (readTlvStream parses only after an error-free read, and sockets that report this error never report EOF).",
+		"C11.send: std/engine/face is rebuilt with sync and sync/atomic redirected to the cooperative scheduler (mc/sched); the scheduling points are every mutex/atomic operation of StreamFace.Send and every Write of the fake connection; all interleavings of 2-3 sender threads (wires of 1-3 segments) with <= 2 (thorough 3) preemptions are executed and the written bytes must split into exactly the blocks sent. Unsynchronised accesses are invisible to a cooperative scheduler: the same bodies also run free under the Go race detector (send_race_pass, sampled, auxiliary).",
 		"A Read with an empty buffer is answered (0, nil) as sockets do; more than 4 of those, or more Read calls than bytes+deviations+8, is reported as non-termination (step counter, no wall clock).",
 	})
 }
@@ -513,4 +601,60 @@ func runChild(bin string) (*passStats, error) {
 		vios[k] = v
 	}
 	return res.Stats, nil
+}
+
+// buildRaceBin builds harness/c11/racebin with -race against the overlay without rewritten files
+// (real sync package, real constant).
+func buildRaceBin() (string, error) {
+	bdir := os.Getenv("VERIF_BUILD_DIR")
+	ov2 := filepath.Join(bdir, "ov", "overlay-real.json")
+	bin := filepath.Join(bdir, "racebin")
+	args := []string{"build", "-race"}
+	if _, err := os.Stat(filepath.Join(bdir, "alt.mod")); err == nil && os.Getenv("VERIF_REPO_DIR") != "/repo" {
+		args = append(args, "-modfile="+filepath.Join(bdir, "alt.mod"))
+	}
+	args = append(args, "-tags", "verif", "-overlay", ov2, "-o", bin, "./harness/c11/racebin")
+	cmd := exec.Command("go", args...)
+	cmd.Dir = report.Root()
+	if out, err := cmd.CombinedOutput(); err != nil {
+		return "", fmt.Errorf("building the -race binary: %v\n%s", err, out)
+	}
+	return bin, nil
+}
+
+func runRaceBin(bin string, thorough bool) (map[string]any, error) {
+	reps := "300"
+	if thorough {
+		reps = "5000"
+	}
+	cmd := exec.Command(bin, reps)
+	var stdout, stderr bytes.Buffer
+	cmd.Stdout, cmd.Stderr = &stdout, &stderr
+	cmd.Env = append(os.Environ(), "GORACE=halt_on_error=0")
+	runErr := cmd.Run() // exit 66 when races were reported
+	var res struct {
+		Runs      int    `json:"runs"`
+		Misframed int    `json:"misframed"`
+		First     string `json:"first"`
+	}
+	if err := json.Unmarshal(stdout.Bytes(), &res); err != nil {
+		return nil, fmt.Errorf("race binary gave no result (%v): %s", runErr, stderr.String())
+	}
+	races := strings.Count(stderr.String(), "WARNING: DATA RACE")
+	if races > 0 {
+		rpt := stderr.String()
+		if len(rpt) > 3000 {
+			rpt = rpt[:3000]
+		}
+		vios["C11.send|StreamFace.Send: data race reported by the Go race detector"] = &vio{Clause: "C11.send", Key: "StreamFace.Send: data race reported by the Go race detector",
+			Detail: rpt, Count: int64(races), Replay: map[string]any{"pass": "race"}}
+	}
+	if res.Misframed > 0 {
+		k := "C11.send|StreamFace.Send: segments of concurrent sends interleave (the written stream does not parse into the blocks sent)"
+		if _, ok := vios[k]; !ok {
+			vios[k] = &vio{Clause: "C11.send", Key: strings.SplitN(k, "|", 2)[1], Detail: "free-running goroutines: " + res.First, Count: int64(res.Misframed), Replay: map[string]any{"pass": "race"}}
+		}
+	}
+	return map[string]any{"executions": res.Runs, "race_reports": races, "misframed_streams": res.Misframed,
+		"note": "auxiliary sampled evidence: free-running goroutines, real sync, Go race detector"}, nil
 }
